@@ -411,8 +411,43 @@ pub fn eat_body_crlf(c: &mut Conn) -> bool {
     }
 }
 
+static DEAD_SERVERS: std::sync::Mutex<Vec<SocketAddr>> = std::sync::Mutex::new(Vec::new());
+
+/// Two fresh connections, one trivial request each, 10 s each: if neither is answered the server has stopped serving.
+/// The address is then remembered so that the rest of the shard's workload is skipped instead of waiting 10 s per request.
+fn server_stopped_serving(addr: SocketAddr) -> bool {
+    for _ in 0..2 {
+        if let Ok(mut c) = Conn::open(addr) {
+            if c.send(b"GET /r/0 HTTP/1.1\r\nHost: hv\r\nConnection: close\r\n\r\n", &[], 0).is_ok() {
+                if let Ok(Some(_)) = c.read_response(Duration::from_secs(10)) {
+                    return false;
+                }
+            }
+        }
+    }
+    DEAD_SERVERS.lock().unwrap().push(addr);
+    true
+}
+
+/// A wait that ran out in silence: a verdict only if the server has stopped serving everybody, otherwise inconclusive.
+fn silence(r: &mut Report, lab: &dyn Lab, addr: SocketAddr, what: &str, replay: &[String]) {
+    if server_stopped_serving(addr) {
+        r.violation("C01/server-stopped-serving", format!("[{}] {}; two fresh connections with a trivial request were not answered within 10 s each either: the server no longer serves anybody (after {} plays of this shard)", lab.runtime(), what, r.evaluations), J::obj(vec![("observed", J::s(what)), ("runtime", J::s(lab.runtime()))]), replay.to_vec());
+    } else {
+        r.inconclusive(what.to_string());
+    }
+}
+
+pub fn is_dead(addr: SocketAddr) -> bool {
+    DEAD_SERVERS.lock().unwrap().contains(&addr)
+}
+
 /// Lock-step play: the next request is sent only after the previous response is complete.
 pub fn play_lockstep(r: &mut Report, lab: &dyn Lab, s: &Script, cfg: &PlayCfg, replay: &[String]) {
+    if is_dead(lab.addr()) || (s.ending == Ending::Idle && lab.timeout_addr().map(is_dead).unwrap_or(false)) {
+        r.count("plays_skipped_server_stopped_serving", 1);
+        return;
+    }
     let addr = if s.ending == Ending::Idle { lab.timeout_addr().unwrap() } else { lab.addr() };
     let mode = "lock-step";
     r.eval();
@@ -450,7 +485,7 @@ pub fn play_lockstep(r: &mut Report, lab: &dyn Lab, s: &Script, cfg: &PlayCfg, r
                 if !c.buf.is_empty() {
                     viol(r, "C01/panic:bytes-after-panic", format!("{} bytes arrived on a connection whose handler panicked", c.buf.len()), s, cfg, mode, lab, J::s(show(&c.buf, 100)), replay);
                 } else if !closed {
-                    r.inconclusive("connection of a panicking handler not closed within 10 s");
+                    silence(r, lab, addr, "the connection of a panicking handler was not closed within 10 s", replay);
                 } else {
                     r.count("panic_connections_closed", 1);
                 }
@@ -467,7 +502,12 @@ pub fn play_lockstep(r: &mut Report, lab: &dyn Lab, s: &Script, cfg: &PlayCfg, r
                         if c.eof {
                             viol(r, "C01/response-missing", format!("connection closed without a response to request #{} ({} {})", i, q.method, q.path()), s, cfg, mode, lab, J::Null, replay);
                         } else {
-                            r.inconclusive(format!("no response to request #{} within 10 s", i));
+                            // silence on an open connection: slow, or has the server stopped serving altogether?
+                            if server_stopped_serving(addr) {
+                                viol(r, "C01/server-stopped-serving", format!("request #{} ({} {}) got no response within 10 s on an open connection, and two fresh connections with a trivial request were not answered within 10 s each either: the server no longer serves anybody (after {} scripts of this shard)", i, q.method, q.path(), r.evaluations), s, cfg, mode, lab, J::Null, replay);
+                            } else {
+                                r.inconclusive(format!("no response to request #{} within 10 s", i));
+                            }
                         }
                         return;
                     }
@@ -605,6 +645,9 @@ pub fn play_lockstep(r: &mut Report, lab: &dyn Lab, s: &Script, cfg: &PlayCfg, r
 /// Pipelined play: the whole byte stream is sent under a segmentation whose segments may span requests.
 pub fn play_pipelined(r: &mut Report, lab: &dyn Lab, s: &Script, cfg: &PlayCfg, replay: &[String]) {
     let mode = "pipelined";
+    if is_dead(lab.addr()) {
+        return;
+    }
     // only scripts of ordinary requests (no panic, no special ending) are pipelined
     if s.reqs.iter().any(|q| q.expected().is_none()) || s.reqs.len() < 2 {
         return;
@@ -714,6 +757,9 @@ pub fn play_pipelined(r: &mut Report, lab: &dyn Lab, s: &Script, cfg: &PlayCfg, 
 
 /// The panic clause: successive panicking connections on a small pool must not disturb healthy ones.
 pub fn play_panic_isolation(r: &mut Report, lab: &dyn Lab, rng: &mut Rng, id: &str, replay: &[String]) {
+    if is_dead(lab.addr()) {
+        return;
+    }
     r.eval();
     r.count("panic_isolation_rounds", 1);
     let cfg = PlayCfg { seg: vec![], gap: 0, plan_name: "whole".into() };
@@ -730,6 +776,9 @@ pub fn play_panic_isolation(r: &mut Report, lab: &dyn Lab, rng: &mut Rng, id: &s
 
 /// A connection on which the client sends nothing and half-closes: zero requests, so zero responses.
 pub fn play_zero_requests(r: &mut Report, lab: &dyn Lab, id: &str, replay: &[String]) {
+    if is_dead(lab.addr()) {
+        return;
+    }
     r.eval();
     let mut c = match Conn::open(lab.addr()) {
         Ok(c) => c,
@@ -756,6 +805,9 @@ pub fn play_slow_request(r: &mut Report, lab: &dyn Lab, rng: &mut Rng, id: &str,
         Some(a) => a,
         None => return,
     };
+    if is_dead(addr) {
+        return;
+    }
     r.eval();
     let body: Vec<u8> = format!("<{}.0>{}", id, "slow-body-".repeat(rng.urange(1, 6))).into_bytes();
     let q = ReqSpec { xid: format!("{}.0", id), method: "POST", target: Target::Echo, conn: Some("close".into()), version: "HTTP/1.1", body: Some(body) };
@@ -797,7 +849,7 @@ pub fn play_slow_request(r: &mut Report, lab: &dyn Lab, rng: &mut Rng, id: &str,
             }
         }
         Ok(None) if c.eof => r.violation("C01/slow-request:no-response", format!("[{}] a well-formed request delivered in two segments {} ms apart (connection timeout {} ms, split at byte {}) got no response at all: the connection was closed silently", lab.runtime(), TIMEOUT_MS * 8 / 5, TIMEOUT_MS, split), ex, replay.to_vec()),
-        Ok(None) => r.inconclusive("no response to a slow request within 10 s"),
+        Ok(None) => silence(r, lab, addr, "no response to a slow request within 10 s", replay),
         Err(e) => r.violation("C01/response-malformed", format!("[{}] response to a slow request is not well-formed: {}", lab.runtime(), e), ex, replay.to_vec()),
     }
     // the echo handler's log entry is not part of this play's verdict: drop it
@@ -815,6 +867,9 @@ pub fn play_big_response(r: &mut Report, lab: &dyn Lab, rng: &mut Rng, id: &str,
     } else {
         lab.addr()
     };
+    if is_dead(addr) {
+        return;
+    }
     r.eval();
     let n = *rng.pick(&[2usize << 20, 5 << 20, 8 << 20]) + rng.urange(0, 4096);
     // (a blocked write makes partial progress on its first attempts: an armed write timeout needs several periods)
@@ -859,7 +914,7 @@ pub fn play_big_response(r: &mut Report, lab: &dyn Lab, rng: &mut Rng, id: &str,
             if c.eof {
                 r.violation("C01/response-missing", format!("{}: connection closed without a response", what), ex, replay.to_vec());
             } else {
-                r.inconclusive("no response to a large request within 30 s");
+                silence(r, lab, addr, "no response to a large request within 30 s", replay);
             }
         }
         Err(e) => r.violation("C01/big-response:truncated", format!("{}: the response is not complete: {}", what, e.chars().take(160).collect::<String>()), ex, replay.to_vec()),
